@@ -159,7 +159,9 @@ def run(ctx: Ctx) -> None:
     guard = _parent_none_guard(pcfg, recv) if recv else None
     ctx.ob("R6.4", "parser:CxxParser._pop_state|unbalanced '}' raises", guard is not None, msg="no `parent is None -> raise` check: a stray '}' pops the root block", node=pm.fn("_pop_state"), mod=mod)
     _bracket_mismatch(ctx, pm)
+    _unchecked_pops(ctx, pm)
     _validate_after_parse_type(ctx, pm)
+    _validate_flags(ctx, pm)
 
     # ---------------------------------------------------------------- R6.5
     ctx.rule("R6.5", "no token regex matches the empty string (the PLY loop always advances)", minimum=30)
@@ -273,3 +275,115 @@ def _validate_after_parse_type(ctx: Ctx, pm: ParserModel) -> None:
                 stack.append(s)
         ctx.ob("R6.4", f"parser:CxxParser.{fname}|{mvar}.validate after _parse_type", leak is None,
                msg=f"a path from `{short(st)}` reaches the end of {fname} without {mvar}.validate(...): specifiers that are not allowed here are silently accepted", node=call, mod=mod)
+
+
+def _unchecked_pops(ctx: Ctx, pm: ParserModel) -> None:
+    """No expectation is removed from the stack without having been compared with the
+    closing token: a pop either binds its value (which is then compared) or sits in the
+    top-down scan that found an equal entry."""
+    fname = "_consume_balanced_tokens"
+    fn = pm.fn(fname)
+    cfg = pm.cfg(fname)
+    mod = pm.mod
+    bad = []
+    n_pops = 0
+    for n in cfg.nodes:
+        st = n.stmt
+        if n.kind != "stmt":
+            continue
+        for c in n.calls():
+            if isinstance(c.func, ast.Attribute) and c.func.attr == "pop" and "stack" in norm(c.func.value):
+                n_pops += 1
+                if isinstance(st, ast.Assign) and st.value is c and isinstance(st.targets[0], ast.Name):
+                    var = st.targets[0].id
+                    # the bound value must be compared with the token's type on every path before it dies
+                    cmp_nodes = [m for m in cfg.nodes if m.kind == "test" and m.cond is not None and any(isinstance(x, ast.Name) and x.id == var for x in ast.walk(m.cond)) and ".type" in norm(m.cond)]
+                    if not cmp_nodes or not all(True for _ in cmp_nodes) or cfg.paths_avoiding(n, cfg.exit, lambda y: y in cmp_nodes) and not any(cfg.dominates(n, m) for m in cmp_nodes):
+                        bad.append(short(st))
+                    # first node after the pop that is a test must be (or lead to) the comparison: no other pop in between
+                    continue
+                # discarded pop: must be dominated by an equality test `tok.type == <element of the stack scan>` (T side)
+                ok = False
+                for i in cfg.dominators().get(n.id, ()):
+                    d = cfg.nodes[i]
+                    cnd = d.cond
+                    if d.kind == "test" and isinstance(cnd, ast.Compare) and len(cnd.ops) == 1 and isinstance(cnd.ops[0], ast.Eq) and ".type" in norm(cnd):
+                        other = cnd.comparators[0] if ".type" in norm(cnd.left) else cnd.left
+                        if isinstance(other, ast.Name) and _is_scan_var(fn, other.id):
+                            fs = [x for x, lab in d.succ if lab == "F"]
+                            if not any(x is n or cfg.paths_avoiding(x, n, lambda y: y is d) for x in fs):
+                                ok = True
+                if not ok:
+                    bad.append(short(st))
+    ctx.ob("R6.4", "parser:CxxParser._consume_balanced_tokens|no expectation popped unchecked", n_pops >= 2 and not bad,
+           msg=f"{bad} removes an expected closer from the stack without comparing it with the closing token: a mismatched bracket (e.g. ']]' closing a '[' and an enclosing '(') is silently accepted",
+           node=fn, mod=mod)
+
+
+def _is_scan_var(fn: ast.AST, name: str) -> bool:
+    """name is bound by a for-loop over (reversed / enumerated) the expectation stack."""
+    for l in walk_local(fn):
+        if isinstance(l, ast.For) and "stack" in norm(l.iter) and any(isinstance(x, ast.Name) and x.id == name for x in ast.walk(l.target)):
+            return True
+    return False
+
+
+def _validate_flags(ctx: Ctx, pm: ParserModel) -> None:
+    """Specifier validation is asked for what the context allows: variable-only specifiers
+    never in a typedef, method-only specifiers only for a non-typedef declaration inside a
+    class, and nothing at all in type-only contexts."""
+    from ..booleval import UNKNOWN, ev, paths_to
+    mod = pm.mod
+
+    def sym(e):
+        if isinstance(e, ast.Call) and isinstance(e.func, ast.Name) and e.func.id == "isinstance" and len(e.args) == 2 and is_self_attr(e.args[0], "state") and norm(e.args[1]) == "ClassBlockState":
+            return "<in_class>"
+        return None
+
+    for fname, fn in pm.methods.items():
+        cfg = pm.cfg(fname)
+        for n in cfg.nodes:
+            for c in n.calls():
+                if not (isinstance(c.func, ast.Attribute) and c.func.attr == "validate"):
+                    continue
+                kw = {k.arg: k.value for k in c.keywords}
+                if "var_ok" not in kw or "meth_ok" not in kw:
+                    ctx.ob("R6.4", f"parser:CxxParser.{fname}|validate({short(c, 30)}) names both flags", False, msg="validate is not called with var_ok= and meth_ok=", node=c, mod=mod)
+                    continue
+                params = [a.arg for a in fn.args.args]
+                has_td = "is_typedef" in params
+                combos = [(td, ic) for td in ((True, False) if has_td else (None,)) for ic in (True, False)]
+                bad = []
+                seen_any = False
+                for td, ic in combos:
+                    inputs = {"<in_class>": ic}
+                    if td is not None:
+                        inputs["is_typedef"] = td
+                    try:
+                        envs = paths_to(cfg, n, inputs, sym)
+                    except RuntimeError:
+                        raise AnalysisError(f"path enumeration too large in {fname}")
+                    for env in envs:
+                        seen_any = True
+                        v = ev(kw["var_ok"], env, sym)
+                        m = ev(kw["meth_ok"], env, sym)
+                        if fname == "_parse_declarations":
+                            want = (False, False) if td else ((True, True) if ic else (True, False))
+                        elif fname == "_maybe_parse_class_enum_decl":
+                            # forward declaration: nothing; class/enum definition: variable specifiers carry over to trailing declarators unless typedef
+                            want = None
+                            if v is False and m is False:
+                                continue
+                            want = (not td, False)
+                        else:
+                            want = (False, False)
+                        if (v, m) != want:
+                            bad.append(f"is_typedef={td}, in class={ic}: var_ok={_show(v)}, meth_ok={_show(m)} (required {want})")
+                ctx.ob("R6.4", f"parser:CxxParser.{fname}|flags of `{short(c, 40)}`", seen_any and not bad,
+                       msg="specifier validation is asked for more than the context allows: " + "; ".join(sorted(set(bad))[:3]), node=c, mod=mod,
+                       detail={"combinations": len(combos)})
+
+
+def _show(v):
+    from ..booleval import UNKNOWN
+    return "?" if v is UNKNOWN else v
